@@ -71,7 +71,10 @@ class Sys:
         self.ikind = NARROW[cfg[4]] if len(cfg) > 4 and cfg[4] else int
         self.sizes = list(cfg[5]) if len(cfg) > 5 else SIZES
         self.cfg = cfg
-        self.b = kinds()[kind](capacity=cap0, context=ctx(), default_alignment=al, grow_step=gs)
+        nk = NARROW[cfg[4]] if len(cfg) > 4 and cfg[4] else None
+        fits = lambda v: nk is not None and v is not None and np.iinfo(nk).min <= v <= np.iinfo(nk).max
+        # with a narrow integer kind, the constructor arguments that fit are given in that kind as well
+        self.b = kinds()[kind](capacity=nk(cap0) if fits(cap0) else cap0, context=ctx(), default_alignment=nk(al) if fits(al) else al, grow_step=nk(gs) if fits(gs) else gs)
         self.m = ByteMap(cap0)
         self.live = []  # [off, size, tag]
         self.al = al
@@ -107,7 +110,11 @@ class Sys:
             _, size, align = ev
             a = self.al if align else 1
             try:
-                off = b.allocate(self.ikind(size), align=align)
+                with common.Watchdog(20):
+                    off = b.allocate(self.ikind(size), align=align)
+            except common.Watchdog.Expired:
+                bad("C12.terminates", "allocate-hangs", "allocate(%r) did not return within 20 s" % (size,))
+                return False
             except Exception as e:
                 bad("C12.terminates", "allocate-raises:" + common.exc_failure(e), repr(e))
                 return False
@@ -174,7 +181,11 @@ class Sys:
                 return False
         else:
             try:
-                b.grow(self.ikind(ev[1]))
+                with common.Watchdog(20):
+                    b.grow(self.ikind(ev[1]))
+            except common.Watchdog.Expired:
+                bad("C12.terminates", "grow-hangs", "")
+                return False
             except Exception as e:
                 bad("C12.terminates", "grow-raises:" + common.exc_failure(e), repr(e))
                 return False
